@@ -21,7 +21,8 @@ def parse_vice(text):
     for line in (text or "").splitlines():
         m = re.match(r"al C:([0-9A-Fa-f]+) \.(.*)$", line)
         if m:
-            out.append({"addr": int(m.group(1), 16), "path": m.group(2)})
+            a = int(m.group(1), 16)
+            out.append({"addr": a - (1 << 64) if a >= (1 << 63) else a, "path": m.group(2)})     # (a negative value is printed as 64-bit hex)
     return out
 
 
